@@ -35,14 +35,14 @@ type Field struct {
 }
 
 type Struct struct {
-	Tid       int
-	Type      reflect.Type // struct type (not pointer)
-	Name      string
-	Crc       uint32
-	CrcOK     bool // CRC() callable without panic
-	FlagIndex int  // -1 if no FlagIndexGetter
-	Fields    []Field
-	Impls     []int
+	Tid        int
+	Type       reflect.Type // struct type (not pointer)
+	Name       string
+	Crc        uint32
+	CrcOK      bool // CRC() callable without panic
+	FlagIndex  int  // -1 if no FlagIndexGetter
+	Fields     []Field
+	Impls      []int
 	Registered bool // objectByCrc[Crc] == *Type
 	Scanned    bool // found by the source scan for CRC() methods
 }
@@ -317,6 +317,53 @@ func (u *Universe) Fty(t reflect.Type) string {
 		return "bad:" + t.String()
 	}
 	return "bad:" + t.Kind().String()
+}
+
+// TypeOfFty is the inverse of Fty on the descriptors that can occur as decoder hints.
+func (u *Universe) TypeOfFty(s string) (reflect.Type, bool) {
+	switch s {
+	case "i32":
+		return reflect.TypeOf(int32(0)), true
+	case "i64":
+		return reflect.TypeOf(int64(0)), true
+	case "f64":
+		return reflect.TypeOf(float64(0)), true
+	case "bool":
+		return reflect.TypeOf(false), true
+	case "str":
+		return reflect.TypeOf(""), true
+	case "bytes":
+		return reflect.TypeOf([]byte{}), true
+	case "i128":
+		return tInt128, true
+	case "i256":
+		return tInt256, true
+	}
+	if s == "" {
+		return nil, false
+	}
+	n, err := strconv.Atoi(s[1:])
+	switch s[0] {
+	case 'V':
+		e, ok := u.TypeOfFty(s[1:])
+		if !ok {
+			return nil, false
+		}
+		return reflect.SliceOf(e), true
+	case 'P':
+		if err == nil && n >= 0 && n < len(u.Structs) {
+			return reflect.PtrTo(u.Structs[n].Type), true
+		}
+	case 'I':
+		if err == nil && n >= 0 && n < len(u.Ifaces) {
+			return u.Ifaces[n], true
+		}
+	case 'e':
+		if err == nil && n >= 0 && n < len(u.Enums) {
+			return u.Enums[n].Type, true
+		}
+	}
+	return nil, false
 }
 
 func (u *Universe) StructOf(t reflect.Type) (*Struct, bool) {
